@@ -1,1 +1,291 @@
-(* placeholder: being written *)
+(* Proofs about the canonical trie: history independence of the root, agreement with the
+   inductive rules of the specification, lookup semantics of the canonical path walk. *)
+From Coq Require Import List Bool Arith NArith Lia Permutation.
+From Nomt Require Import Base Hash Trie Base_proofs.
+Import ListNotations.
+
+(* keys are distinct and all of length n *)
+Definition wf (n : nat) (S : kv) : Prop :=
+  NoDup (map fst S) /\ forall k v, In (k, v) S -> length k = n.
+(* all keys of S agree on their first d bits *)
+Definition agree (d : nat) (S : kv) : Prop :=
+  forall k v k' v', In (k, v) S -> In (k', v') S -> firstn d k = firstn d k'.
+
+(* ---------- shape of mk ---------- *)
+
+Lemma mk_nil : forall f d, mk f d [] = E.
+Proof. intros [|f] d; reflexivity. Qed.
+
+Lemma mk_single : forall f d k v, mk f d [(k, v)] = Lf k v.
+Proof. intros [|f] d k v; reflexivity. Qed.
+
+Lemma kv_cases : forall L : kv,
+  L = [] \/ (exists k v, L = [(k, v)]) \/ 2 <= length L.
+Proof.
+  intros [|[k v] [|p L]].
+  - left. reflexivity.
+  - right. left. exists k, v. reflexivity.
+  - right. right. cbn. lia.
+Qed.
+
+Lemma mk_ge2_0 : forall d L, 2 <= length L -> mk 0 d L = E.
+Proof.
+  intros d [|[k v] [|[k2 v2] L]] Hl; cbn in Hl; try lia. reflexivity.
+Qed.
+
+Lemma mk_ge2 : forall f d L, 2 <= length L ->
+  mk (S f) d L = Br (mk f (S d) (side false d L)) (mk f (S d) (side true d L)).
+Proof.
+  intros f d [|[k v] [|[k2 v2] L]] Hl; cbn in Hl; try lia. reflexivity.
+Qed.
+
+(* ---------- permutation invariance ---------- *)
+
+Lemma filter_perm : forall (A : Type) (f : A -> bool) l l',
+  Permutation l l' -> Permutation (filter f l) (filter f l').
+Proof.
+  intros A f l l' HP. induction HP as [|x l l' HP IH|x y l|l l' l'' HP1 IH1 HP2 IH2]; cbn [filter].
+  - constructor.
+  - destruct (f x); [constructor|]; exact IH.
+  - destruct (f x), (f y); try apply Permutation_refl. apply perm_swap.
+  - eapply perm_trans; eassumption.
+Qed.
+
+Lemma mk_perm : forall fuel d S S', Permutation S S' -> mk fuel d S = mk fuel d S'.
+Proof.
+  induction fuel as [|f IH]; intros d L L' HP;
+    destruct (kv_cases L) as [HL|[[k [v HL]]|HL]].
+  - subst. apply Permutation_nil in HP. subst. reflexivity.
+  - subst. apply Permutation_length_1_inv in HP. subst. reflexivity.
+  - rewrite (mk_ge2_0 d L HL).
+    rewrite (Permutation_length HP) in HL. rewrite (mk_ge2_0 d L' HL). reflexivity.
+  - subst. apply Permutation_nil in HP. subst. reflexivity.
+  - subst. apply Permutation_length_1_inv in HP. subst. reflexivity.
+  - rewrite (mk_ge2 f d L HL).
+    rewrite (Permutation_length HP) in HL. rewrite (mk_ge2 f d L' HL).
+    f_equal; apply IH; apply filter_perm; exact HP.
+Qed.
+
+(* C02: the root is a function of the key/value SET: any two association lists holding the
+   same pairs (whatever order / history produced them) have the same root, for any hasher *)
+Theorem root_history_independent : forall (H : Hasher) n S S',
+  NoDup (map fst S) -> NoDup (map fst S') -> (forall k, get S k = get S' k) ->
+  root_n H n S = root_n H n S'.
+Proof.
+  intros H n L L' Hnd Hnd' Hg. unfold root_n. f_equal.
+  apply mk_perm. apply NoDup_get_perm; assumption.
+Qed.
+
+(* ---------- facts about side ---------- *)
+
+Lemma In_side : forall b d L k v,
+  In (k, v) (side b d L) <-> In (k, v) L /\ bit k d = b.
+Proof.
+  intros b d L k v. unfold side. rewrite filter_In. cbn [fst].
+  rewrite Bool.eqb_true_iff. tauto.
+Qed.
+
+Lemma NoDup_map_filter : forall (f : key * value -> bool) (L : kv),
+  NoDup (map fst L) -> NoDup (map fst (filter f L)).
+Proof.
+  intros f. induction L as [|p L IH]; intros Hnd; cbn [filter map].
+  - constructor.
+  - cbn [map] in Hnd. inversion Hnd as [|x l Hnin Hnd']; subst.
+    destruct (f p).
+    + cbn [map]. constructor; [|apply IH; exact Hnd'].
+      intros Hin. apply Hnin. apply in_map_iff in Hin.
+      destruct Hin as [q [Hq Hin]]. apply filter_In in Hin. destruct Hin as [Hin _].
+      apply in_map_iff. exists q. split; assumption.
+    + apply IH. exact Hnd'.
+Qed.
+
+Lemma NoDup_side : forall b d L, NoDup (map fst L) -> NoDup (map fst (side b d L)).
+Proof. intros b d L. unfold side. apply NoDup_map_filter. Qed.
+
+Lemma firstn_S_bit : forall d (k : key), d < length k ->
+  firstn (S d) k = firstn d k ++ [bit k d].
+Proof.
+  induction d as [|d IH]; intros [|x k] Hl; cbn [length] in Hl; try lia.
+  - reflexivity.
+  - change (firstn (S (S d)) (x :: k)) with (x :: firstn (S d) k).
+    rewrite IH by lia. reflexivity.
+Qed.
+
+Lemma get_side : forall L k d, get (side (bit k d) d L) k = get L k.
+Proof.
+  intros L k d. unfold side.
+  induction L as [|[k0 v0] L IH]; cbn [filter fst].
+  - reflexivity.
+  - destruct (Bool.eqb (bit k0 d) (bit k d)) eqn:E; cbn [get].
+    + destruct (key_eqb k0 k); [reflexivity|exact IH].
+    + destruct (key_eqb k0 k) eqn:E2; [|exact IH].
+      apply key_eqb_true_iff in E2. subst. rewrite Bool.eqb_reflx in E. discriminate.
+Qed.
+
+Lemma agree_side : forall b d L,
+  (forall k v, In (k, v) L -> d < length k) -> agree d L -> agree (S d) (side b d L).
+Proof.
+  intros b d L Hlen Hag k v k' v' Hin Hin'.
+  apply In_side in Hin. destruct Hin as [Hin Hb].
+  apply In_side in Hin'. destruct Hin' as [Hin' Hb'].
+  rewrite (firstn_S_bit d k) by (eapply Hlen; exact Hin).
+  rewrite (firstn_S_bit d k') by (eapply Hlen; exact Hin').
+  rewrite Hb, Hb'. f_equal. eapply Hag; eassumption.
+Qed.
+
+(* two distinct keys of length d cannot agree on d bits: fuel never runs out *)
+Lemma no_fuel0 : forall d (L : kv),
+  NoDup (map fst L) -> (forall k v, In (k, v) L -> length k = d) -> agree d L ->
+  2 <= length L -> False.
+Proof.
+  intros d [|[k1 v1] [|[k2 v2] L]] Hnd Hlen Hag Hl; cbn [length] in Hl; try lia.
+  assert (H1 : In (k1, v1) ((k1, v1) :: (k2, v2) :: L)) by (left; reflexivity).
+  assert (H2 : In (k2, v2) ((k1, v1) :: (k2, v2) :: L)) by (right; left; reflexivity).
+  pose proof (Hag _ _ _ _ H1 H2) as Heq.
+  rewrite <- (Hlen _ _ H1) in Heq at 1. rewrite <- (Hlen _ _ H2) in Heq.
+  rewrite !firstn_all in Heq. subst k2.
+  cbn [map fst] in Hnd. inversion Hnd as [|x l Hnin _]; subst.
+  apply Hnin. left. reflexivity.
+Qed.
+
+(* ---------- the rules of docs/nomt_specification.md as an inductive predicate ---------- *)
+
+Inductive canon : nat -> kv -> trie -> Prop :=
+| canon_E : forall d, canon d [] E
+| canon_L : forall d k v, canon d [(k, v)] (Lf k v)
+| canon_B : forall d S l r, 2 <= length S ->
+    canon (Datatypes.S d) (side false d S) l -> canon (Datatypes.S d) (side true d S) r ->
+    canon d S (Br l r).
+
+Lemma mk_canon_gen : forall f d (L : kv),
+  NoDup (map fst L) -> (forall k v, In (k, v) L -> length k = d + f) -> agree d L ->
+  canon d L (mk f d L).
+Proof.
+  induction f as [|f IH]; intros d L Hnd Hlen Hag;
+    destruct (kv_cases L) as [HL|[[k [v HL]]|HL]].
+  - subst. rewrite mk_nil. constructor.
+  - subst. rewrite mk_single. constructor.
+  - exfalso. apply (no_fuel0 d L); try assumption.
+    intros k v Hin. rewrite (Hlen k v Hin). lia.
+  - subst. rewrite mk_nil. constructor.
+  - subst. rewrite mk_single. constructor.
+  - rewrite (mk_ge2 f d L HL).
+    assert (Hlt : forall k v, In (k, v) L -> d < length k).
+    { intros k v Hin. rewrite (Hlen k v Hin). lia. }
+    apply canon_B; [exact HL| |].
+    + apply IH.
+      * apply NoDup_side. exact Hnd.
+      * intros k v Hin. apply In_side in Hin. destruct Hin as [Hin _].
+        rewrite (Hlen k v Hin). lia.
+      * apply agree_side; assumption.
+    + apply IH.
+      * apply NoDup_side. exact Hnd.
+      * intros k v Hin. apply In_side in Hin. destruct Hin as [Hin _].
+        rewrite (Hlen k v Hin). lia.
+      * apply agree_side; assumption.
+Qed.
+
+Theorem mk_canon : forall n d S, wf n S -> agree d S -> d <= n -> canon d S (mk (n - d) d S).
+Proof.
+  intros n d L [Hnd Hlen] Hag Hle. apply mk_canon_gen; try assumption.
+  intros k v Hin. rewrite (Hlen k v Hin). lia.
+Qed.
+
+Theorem canon_unique : forall d S t t', canon d S t -> canon d S t' -> t = t'.
+Proof.
+  intros d L t t' Hc. revert t'.
+  induction Hc as [d|d k v|d L l r Hlen Hl IHl Hr IHr]; intros t' Hc';
+    inversion Hc' as [d'|d' k' v'|d' L' l' r' Hlen' Hl' Hr']; subst;
+    try reflexivity; try (cbn [length] in *; lia).
+  f_equal; [apply IHl|apply IHr]; assumption.
+Qed.
+
+Corollary root_canonical : forall n S, wf n S -> canon 0 S (mk n 0 S).
+Proof.
+  intros n L Hwf.
+  pose proof (mk_canon n 0 L Hwf) as Hc. rewrite Nat.sub_0_r in Hc.
+  apply Hc; [|lia].
+  intros k v k' v' _ _. reflexivity.
+Qed.
+
+(* ---------- lookup semantics of the canonical trie ---------- *)
+
+Lemma walk_mk_step : forall (H : Hasher) f d (L : kv) k, 2 <= length L ->
+  walk H (mk (S f) d L) k d =
+  let '(s, tm) := walk H (mk f (S d) (side (bit k d) d L)) k (S d) in
+  (hash H (mk f (S d) (side (negb (bit k d)) d L)) :: s, tm).
+Proof.
+  intros H f d L k HL. rewrite (mk_ge2 f d L HL). cbn [walk].
+  destruct (bit k d); reflexivity.
+Qed.
+
+Lemma mk_walk_gen : forall (H : Hasher) f d (L : kv) k sibs tm,
+  NoDup (map fst L) ->
+  (forall k' v', In (k', v') L -> length k' = d + f) ->
+  (forall k' v', In (k', v') L -> firstn d k' = firstn d k) ->
+  length k = d + f ->
+  walk H (mk f d L) k d = (sibs, tm) ->
+  length sibs <= f /\
+  match tm with
+  | TLeaf k' v' => In (k', v') L /\
+                   firstn (d + length sibs) k' = firstn (d + length sibs) k /\
+                   get L k = (if key_eqb k' k then Some v' else None)
+  | TTerm p => p = firstn (d + length sibs) k /\ get L k = None
+  end.
+Proof.
+  intros H. induction f as [|f IH]; intros d L k sibs tm Hnd Hlen Hpre Hk Hw;
+    destruct (kv_cases L) as [HL|[[k1 [v1 HL]]|HL]].
+  - subst. rewrite mk_nil in Hw. cbn [walk] in Hw. inversion Hw; subst.
+    cbn [length]. rewrite Nat.add_0_r. split; [lia|]. split; reflexivity.
+  - subst. rewrite mk_single in Hw. cbn [walk] in Hw. inversion Hw; subst.
+    cbn [length]. rewrite Nat.add_0_r. split; [lia|].
+    split; [left; reflexivity|]. split.
+    + apply (Hpre k1 v1). left. reflexivity.
+    + reflexivity.
+  - exfalso. apply (no_fuel0 d L); try assumption.
+    + intros k' v' Hin. rewrite (Hlen k' v' Hin). lia.
+    + intros a va b vb Ha Hb. rewrite (Hpre a va Ha), (Hpre b vb Hb). reflexivity.
+  - subst. rewrite mk_nil in Hw. cbn [walk] in Hw. inversion Hw; subst.
+    cbn [length]. rewrite Nat.add_0_r. split; [lia|]. split; reflexivity.
+  - subst. rewrite mk_single in Hw. cbn [walk] in Hw. inversion Hw; subst.
+    cbn [length]. rewrite Nat.add_0_r. split; [lia|].
+    split; [left; reflexivity|]. split.
+    + apply (Hpre k1 v1). left. reflexivity.
+    + reflexivity.
+  - rewrite (walk_mk_step H f d L k HL) in Hw.
+    destruct (walk H (mk f (S d) (side (bit k d) d L)) k (S d)) as [s tm0] eqn:Ew.
+    inversion Hw; subst. clear Hw.
+    apply IH in Ew.
+    + destruct Ew as [Hls Hm]. cbn [length].
+      replace (d + S (length s)) with (S d + length s) by lia.
+      split; [lia|].
+      destruct tm as [k' v'|p].
+      * destruct Hm as [Hin [Hf Hg]]. apply In_side in Hin. destruct Hin as [Hin _].
+        split; [exact Hin|]. split; [exact Hf|].
+        rewrite get_side in Hg. exact Hg.
+      * destruct Hm as [Hp Hg]. split; [exact Hp|].
+        rewrite get_side in Hg. exact Hg.
+    + apply NoDup_side. exact Hnd.
+    + intros k' v' Hin. apply In_side in Hin. destruct Hin as [Hin _].
+      rewrite (Hlen k' v' Hin). lia.
+    + intros k' v' Hin. apply In_side in Hin. destruct Hin as [Hin Hb].
+      rewrite (firstn_S_bit d k') by (rewrite (Hlen k' v' Hin); lia).
+      rewrite (firstn_S_bit d k) by lia.
+      rewrite Hb, (Hpre k' v' Hin). reflexivity.
+    + lia.
+Qed.
+
+(* lookup semantics of the canonical trie: where the walk for key k ends and what it finds *)
+Lemma mk_walk : forall (H : Hasher) n S k sibs tm, wf n S -> length k = n ->
+  walk H (mk n 0 S) k 0 = (sibs, tm) ->
+  length sibs <= n /\
+  match tm with
+  | TLeaf k' v' => In (k', v') S /\ firstn (length sibs) k' = firstn (length sibs) k /\
+                   get S k = (if key_eqb k' k then Some v' else None)
+  | TTerm p => p = firstn (length sibs) k /\ get S k = None
+  end.
+Proof.
+  intros H n L k sibs tm [Hnd Hlen] Hk Hw.
+  exact (mk_walk_gen H n 0 L k sibs tm Hnd Hlen
+           (fun k' v' _ => eq_refl) Hk Hw).
+Qed.
